@@ -77,20 +77,20 @@ def write_cfg(ctx, name, **kw):
 # ---- 1. model checking --------------------------------------------------------------------------
 def mc_configs(tier):
     q = [
-        ("pipe 1 reader (delta|cumulative), ranks 0..6, every boundary list within {1,3,5}, <=4 values, <=3 collections",
-         dict(mode="pipe", maxrank=6, bsets=B135, rcfgs="{1, 2}", maxagg=4, maxops=3, invs=INV_POINT)),
-        ("pipe 2 readers (dd|dc|cc), ranks 0..4, every boundary list within {1,3}, min/max on+off, <=3 values, <=3 collections",
-         dict(mode="pipe", rcfgs="{11, 12, 22}", mm="{TRUE, FALSE}", maxagg=3, maxops=3, invs=INV_FULL)),
+        ("pipe 1 reader (delta|cumulative), ranks 0..6, every boundary list within {1,3,5}, <=3 values, <=3 collections",
+         dict(mode="pipe", maxrank=6, bsets=B135, rcfgs="{1, 2}", maxagg=3, maxops=3, invs=INV_FULL)),
+        ("pipe 2 readers (dd|dc|cc), ranks 0..4, every boundary list within {1,3}, <=3 values, <=3 collections",
+         dict(mode="pipe", rcfgs="{11, 12, 22}", maxagg=3, maxops=3, invs=INV_FULL)),
         ("direct 2 objects, ranks 0..4, every boundary list within {1,3}, <=2 Aggregate, <=4 New/Merge/Diff",
          dict(mode="direct", nslots=2, maxagg=2, maxops=4, invs=INV_DIRECT)),
         ("deviation alternatives are narrow (all tables)",
-         dict(mode="direct", maxrank=6, bsets="{{}, {3}, {1,3,5}, {0,5}}", nslots=2, maxagg=2, maxops=2,
+         dict(mode="direct", maxrank=6, bsets="{{3}, {1,3,5}}", nslots=2, maxagg=2, maxops=2,
               tables='{"D_small", "D_tiny", "I_small", "I_huge", "I_frac"}', mm="{TRUE, FALSE}",
               invs="TypeOK PointIsSummary DevsAreNarrow DiffAltOnlyAfterDiff")),
     ]
     if tier == "thorough":
         q += [
-            ("pipe 1 reader, ranks 0..6, boundary lists within {1,3,5}, min/max on+off, all clause invariants",
+            ("pipe 1 reader, ranks 0..6, boundary lists within {1,3,5}, min/max on+off, <=4 values, <=3 collections",
              dict(mode="pipe", maxrank=6, bsets=B135, rcfgs="{1, 2}", mm="{TRUE, FALSE}", maxagg=4, maxops=3, invs=INV_FULL)),
             ("pipe 2 readers (dd|dc|cd|cc), ranks 0..4, <=4 values, <=3 collections",
              dict(mode="pipe", rcfgs="{11, 12, 21, 22}", mm="{TRUE, FALSE}", maxagg=4, maxops=3, invs=INV_FULL)),
@@ -183,9 +183,10 @@ def generate(ctx, ndef):
         mm="{TRUE}", nslots=2, maxagg=2, maxops=2 if not thorough else 3, view="FullView", constraint="CONSTRAINT Bound",
         invs="EmitAtDepth")), None))
     # -- random walks over the bigger domains ----------------------------------------------------
-    num = 220 if thorough else 40
+    num = 220 if thorough else 60
     dflt = "{{" + ", ".join(str(2 * i) for i in range(ndef)) + "}}"
-    for k, (mode, steps) in enumerate([("direct", (7, 7)), ("pipe", (8, 6)), ("direct", (12, 10)), ("pipe", (20, 10))]):
+    walks = [("direct", (12, 10)), ("pipe", (20, 10))] + ([("direct", (7, 7)), ("pipe", (8, 6))] if thorough else [])
+    for k, (mode, steps) in enumerate(walks):
         jobs.append(("sim", "sim-small-%s-%d" % (mode, k), write_cfg(ctx, "sim-small-%s-%d" % (mode, k), **dict(
             GEN, mode=mode, maxrank=6, bsets=BGEN, tables=SMALL_TABLES, nslots=3, nkeys=2,
             rcfgs="{1, 2, 11, 12, 21, 22}", maxagg=steps[0], maxops=steps[1], invs="EmitAll")),
